@@ -352,7 +352,8 @@ impl Value {
         match self {
             Self::Null => "null".to_string(),
             Self::Int(v) => format!("i:{v}"),
-            Self::Float(v) => format!("f:{}", v.to_bits()),
+            // -0.0 == 0.0 for `Condition::evaluate`, so both must share one index key
+            Self::Float(v) => format!("f:{}", (if *v == 0.0 { 0.0 } else { *v }).to_bits()),
             Self::String(v) => {
                 let mut hasher = std::collections::hash_map::DefaultHasher::new();
                 v.hash(&mut hasher);
